@@ -24,7 +24,12 @@ import (
 	"crypto/ecdsa"
 	"crypto/elliptic"
 	"fmt"
+	"go/ast"
+	"go/parser"
+	"go/token"
 	"math/big"
+	"os"
+	"path/filepath"
 	"strings"
 	"sync"
 	"time"
@@ -666,7 +671,84 @@ func execDone(o *opT, mv *group.MembershipValidator) []string {
 	return out
 }
 
+// callsite: source-level observation of the session identifier the retry loops of pkg/tbtc hand to
+// the protocol executor: every attempt is a separate session, so the identifier must be built from the
+// attempt number (the states tell sessions apart only by comparing this string).
+func callsite(which string) string {
+	repo := os.Getenv("VERIF_REPO")
+	if repo == "" {
+		repo = "/repo"
+	}
+	file := map[string]string{"signing": "pkg/tbtc/signing.go", "dkg": "pkg/tbtc/dkg.go"}[which]
+	if file == "" {
+		return "bad-op"
+	}
+	fset := token.NewFileSet()
+	f, err := parser.ParseFile(fset, filepath.Join(repo, file), nil, 0)
+	if err != nil {
+		return "err:parse"
+	}
+	// the Execute call that takes an argument named sessionID
+	var call *ast.CallExpr
+	ast.Inspect(f, func(n ast.Node) bool {
+		c, ok := n.(*ast.CallExpr)
+		if !ok {
+			return true
+		}
+		sel, ok := c.Fun.(*ast.SelectorExpr)
+		if !ok || sel.Sel.Name != "Execute" {
+			return true
+		}
+		for _, a := range c.Args {
+			if id, ok := a.(*ast.Ident); ok && id.Name == "sessionID" {
+				call = c
+			}
+		}
+		return true
+	})
+	if call == nil {
+		return "err:no-execute-call-with-sessionID"
+	}
+	// the definition of sessionID in force at the call: the last `sessionID := ...` before it
+	var def *ast.AssignStmt
+	ast.Inspect(f, func(n ast.Node) bool {
+		a, ok := n.(*ast.AssignStmt)
+		if !ok || len(a.Lhs) != 1 || len(a.Rhs) != 1 {
+			return true
+		}
+		if id, ok := a.Lhs[0].(*ast.Ident); ok && id.Name == "sessionID" && a.Pos() < call.Pos() {
+			if def == nil || a.Pos() > def.Pos() {
+				def = a
+			}
+		}
+		return true
+	})
+	if def == nil {
+		return "err:no-sessionID-definition"
+	}
+	mentions := false
+	ast.Inspect(def.Rhs[0], func(n ast.Node) bool {
+		if sel, ok := n.(*ast.SelectorExpr); ok {
+			if x, ok := sel.X.(*ast.Ident); ok && x.Name == "attempt" && sel.Sel.Name == "number" {
+				mentions = true
+			}
+		}
+		return true
+	})
+	if mentions {
+		return "session-per-attempt"
+	}
+	return "session-shared-by-attempts"
+}
+
 func exec(op string) (string, string) {
+	if f := strings.Fields(op); len(f) == 2 && f[0] == "callsite" {
+		obs := callsite(f[1])
+		if obs == "bad-op" {
+			return obs, "bad"
+		}
+		return obs, "callsite"
+	}
 	o, ok := parse(op)
 	if !ok {
 		return "bad-op", "bad"
@@ -1112,7 +1194,7 @@ func gen(r *hx.Rng, n int, tier string) []string {
 		ops = append(ops, fmtOp(o))
 	}
 	if n > 0 {
-		ops = append(ops, "mv - 1,2 2 - - - 1 1 1 0 - 1:1:1", "nonsense")
+		ops = append(ops, "mv - 1,2 2 - - - 1 1 1 0 - 1:1:1", "nonsense", "callsite signing", "callsite dkg")
 	}
 	return ops
 }
